@@ -474,6 +474,8 @@ def rule_misc(ck):
     ck.ob("C43.re-unescape", None, pat, w is None, "the escape pattern denotes a backslash followed by ANY character, newline included (re.escape escapes '\\n')%s" % ("" if w is None else " — differs on %r (%s)" % w), construct="_re_unescape_pattern", file=UT)
     ru = ck.func(UT, "re_unescape")
     subs = [c for c in q.calls(ru.node) if q.dotted(c.func) == "_re_unescape_pattern.sub"]
+    if not subs:
+        raise AnalysisError("re_unescape does not call _re_unescape_pattern.sub (unknown idiom)")
     ck.ob("C43.re-unescape", ru, ru.node, len(subs) == 1 and len(subs[0].args) == 2 and q.dotted(subs[0].args[1]) == ru.params()[0], "re_unescape substitutes every escape in the whole argument", construct="pattern.sub(repl, s)")
     rr = ck.func(UT, "_re_unescape_replacement")
     rets = [r for r in q.walk_body(rr.node) if isinstance(r, ast.Return)]
@@ -501,8 +503,10 @@ def rule_misc(ck):
         if isinstance(tup, ast.Call) and q.call_attr(tup) == "_replace":
             ck.ob("C43.url-concat", uc, c, q.dotted(tup.func.value) == pu and [k.arg for k in tup.keywords] == ["query"], "only the query component is replaced")
             continue
-        if not isinstance(tup, ast.Tuple):
-            raise AnalysisError("url_concat: urlunparse argument is not a tuple literal (unknown idiom)")
+        elts = _seq_elems(expand(uc, tup, keep=[pu]) if tup is not None else None, pu)
+        if elts is None:
+            raise AnalysisError("url_concat: urlunparse argument is not a recognisable sequence of components (unknown idiom)")
+        tup = ast.Tuple(elts=elts, ctx=ast.Load())
         nq = 4 if len(tup.elts) == 6 else 3
         for i, e in enumerate(tup.elts):
             if i == nq:
@@ -530,19 +534,34 @@ def rule_misc(ck):
     # _encode_header: a valueless parameter is exactly v is None (0 / '' are values)
     from ..x_optint import check_truthiness
     eh = ck.func(HU, "_encode_header")
-    gens = [(l.target, l) for l in q.walk_body(eh.node) if isinstance(l, ast.For)] + [(g.target, g) for g in ast.walk(eh.node) if isinstance(g, ast.comprehension)]
+    # the rendering may live in a private helper (e.g. a generator of encoded parameters): search the callees too
+    from ..x_resolve import callee as _callee
+    scope = [eh.node]
+    for c_ in q.calls(eh.node):
+        h_ = _callee(ck.repo, eh, c_)
+        if h_ is not None and h_.node is not eh.node and h_.name.startswith("_"):
+            scope.append(h_.node)
+            ck.use(h_)
+
+    class _Scope:
+        body = [st for fn in scope for st in fn.body]
+
+    ehs = ast.Module(body=_Scope.body, type_ignores=[])
+    gens = [(l.target, l) for fn in scope for l in q.walk_body(fn) if isinstance(l, ast.For)] + [(g.target, g) for g in ast.walk(ehs) if isinstance(g, ast.comprehension)]
     gens = [(t, l) for t, l in gens if isinstance(t, ast.Tuple) and len(t.elts) == 2 and all(isinstance(e, ast.Name) for e in t.elts)]
     if len(gens) != 1:
         raise AnalysisError("_encode_header: the loop/comprehension over the (name, value) parameters was not found")
     kname, vname = [e.id for e in gens[0][0].elts]
-    check_truthiness(ck, "C43.encode-header", eh, extra=[vname])
-    nones = [c for c in ast.walk(eh.node) if isinstance(c, ast.Compare) and q.dotted(c.left) == vname and isinstance(c.ops[0], (ast.Is, ast.IsNot)) and q.is_const(c.comparators[0], None)]
-    tests_on_v = [t for t in ast.walk(eh.node) if isinstance(t, (ast.If, ast.IfExp)) and vname in q.names_in(t.test)]
+    for fn_ in scope:
+        fi_ = eh if fn_ is eh.node else next(f for f in eh.module.funcs.values() if f.node is fn_)
+        check_truthiness(ck, "C43.encode-header", fi_, extra=[vname])
+    nones = [c for c in ast.walk(ehs) if isinstance(c, ast.Compare) and q.dotted(c.left) == vname and isinstance(c.ops[0], (ast.Is, ast.IsNot)) and q.is_const(c.comparators[0], None)]
+    tests_on_v = [t for t in ast.walk(ehs) if isinstance(t, (ast.If, ast.IfExp)) and vname in q.names_in(t.test)]
     if not tests_on_v:
         raise AnalysisError("_encode_header: no test distinguishing valueless parameters found")
     ck.ob("C43.encode-header", eh, tests_on_v[0].test, len(nones) >= 1, "valueless parameters are recognised by 'is None'")
     tmpl = []
-    for x in ast.walk(eh.node):
+    for x in ast.walk(ehs):
         if isinstance(x, ast.JoinedStr) or (isinstance(x, ast.BinOp) and isinstance(x.op, ast.Mod) and isinstance(x.left, ast.Constant) and isinstance(x.left.value, str)) or (isinstance(x, ast.Call) and q.call_attr(x) == "format" and isinstance(x.func.value, ast.Constant)):
             t, holes = _template(x)
             if t is not None and {kname, vname} <= {q.dotted(h) for h in holes}:
@@ -593,6 +612,35 @@ def _template(e):
     if isinstance(e, ast.Call) and isinstance(e.func, ast.Attribute) and e.func.attr == "format" and isinstance(e.func.value, ast.Constant):
         return _re.sub(r"\{\d*\}", "{}", e.func.value.value), list(e.args)
     return None, []
+
+
+def _seq_elems(e, pu):
+    """Element expressions of a tuple-valued expression built from literals, ``+`` and ``tuple(pu[:k])`` / ``pu[a:b]``
+    slices of the parsed URL (a 6- or 5-tuple); None when not foldable."""
+    if e is None:
+        return None
+    if isinstance(e, (ast.Tuple, ast.List)):
+        out = []
+        for x in e.elts:
+            if isinstance(x, ast.Starred):
+                sub = _seq_elems(x.value, pu)
+                if sub is None:
+                    return None
+                out += sub
+            else:
+                out.append(x)
+        return out
+    if isinstance(e, ast.BinOp) and isinstance(e.op, ast.Add):
+        a, b = _seq_elems(e.left, pu), _seq_elems(e.right, pu)
+        return None if a is None or b is None else a + b
+    if isinstance(e, ast.Call) and q.dotted(e.func) in ("tuple", "list") and len(e.args) == 1:
+        return _seq_elems(e.args[0], pu)
+    if isinstance(e, ast.Subscript) and q.dotted(e.value) == pu and isinstance(e.slice, ast.Slice) and e.slice.step is None:
+        lo = e.slice.lower.value if isinstance(e.slice.lower, ast.Constant) else (0 if e.slice.lower is None else None)
+        hi = e.slice.upper.value if isinstance(e.slice.upper, ast.Constant) else (6 if e.slice.upper is None else None)
+        if isinstance(lo, int) and isinstance(hi, int) and 0 <= lo <= hi <= 6:
+            return [ast.Subscript(value=ast.Name(id=pu, ctx=ast.Load()), slice=ast.Constant(value=i), ctx=ast.Load()) for i in range(lo, hi)]
+    return None
 
 
 def args_param(fi):
